@@ -34,13 +34,32 @@
 (*   "shifted"  results are written back with a shifted index               *)
 (*   "abortall" the first Err wipes the results of the whole batch and      *)
 (*              reports the last element                                    *)
+(*                                                                          *)
+(* Inside an element. Walking an element reduces the contributions of its   *)
+(* parts (Consist::solve_energy_consumption sums fuel / battery / output     *)
+(* power over loco_vec; TrainSimBuilder::make_train_sim_parts sums rotating  *)
+(* mass, freight mass, resistances over rail_vehicles, reading the count of  *)
+(* each car type BY KEY from the n_cars_by_type map). The reduction step     *)
+(* Comb is not associative (float addition is not): the faithful code folds  *)
+(* from the left in the order of the Vec, whatever the number of workers of  *)
+(* the ambient pool and whatever the iteration order of a map. Every        *)
+(* execution Run(input, how) therefore meets SingleAssignment for           *)
+(*   how = a repetition, a second process,                                  *)
+(*         a rayon pool of n workers (n = 1, 2, 4, 7) around the same calls,*)
+(*         a fresh construction of the input from equal parts (new maps,    *)
+(*         new hasher seeds, another insertion order).                      *)
+(* Fault models of these two (vacuity):                                     *)
+(*   "parsum"   with more than one worker the fold is split into chunks     *)
+(*              that are folded apart and then combined                     *)
+(*   "maporder" the construction folds the parts in the iteration order of  *)
+(*              a map, which is another permutation at every construction   *)
 (***************************************************************************)
 EXTENDS Integers, Sequences, FiniteSets, TLC
 
 CONSTANTS N,         \* batch size: elements 1..N
           W,         \* number of workers of the parallel rounds
           Rounds,    \* rounds per behaviour (1 serial + Rounds-1 parallel)
-          Variant    \* "isolated" | "shared" | "shifted" | "abortall"
+          Variant    \* "isolated" | "shared" | "shifted" | "abortall" | "parsum" | "maporder"
 
 Elems == 1..N
 Workers == 1..W
@@ -58,8 +77,23 @@ VARIABLES fail,     \* failing element of this behaviour, 0 = none
           clash     \* some Commit found result \notin {None, out}
 vars == <<fail, inp, res, pool, busy, full, reported, round, result, clash>>
 
-Inp0 == [e \in Elems |-> 10 * e]
-Walked(v) == 2 * v + 1                                   \* walking alone: a function of the own input only
+(* parts of an element (locomotives of a consist, car types of a train) and their reduction *)
+Parts == 1..3
+VecOrder == <<1, 2, 3>>
+MapOrders == {<<o[1], o[2], o[3]>> : o \in {f \in [Parts -> Parts] : \A a, b \in Parts : a # b => f[a] # f[b]}}
+Comb(a, b) == 2 * a + b                                  \* one step of the reduction: NOT associative
+RECURSIVE Fold(_, _)
+Fold(acc, s) == IF s = <<>> THEN acc ELSE Fold(Comb(acc, Head(s)), Tail(s))
+Contrib(v) == <<v + 1, v + 2, v + 3>>                    \* what part k contributes: a function of the own input only
+
+(* construction of the batch from its parts; o = the iteration order of the map the builder owns *)
+Built(o) == [e \in Elems |-> 10 * e + (IF Variant = "maporder" THEN Fold(0, o) - Fold(0, VecOrder) ELSE 0)]
+Inp0 == Built(VecOrder)
+Walked(v) == Fold(0, Contrib(v))                         \* walking alone: left fold in Vec order
+(* the same walk inside a pool of nw workers *)
+WalkedBy(v, nw) == IF Variant = "parsum" /\ nw > 1
+                   THEN Comb(Fold(0, SubSeq(Contrib(v), 1, 1)), Fold(0, SubSeq(Contrib(v), 2, 3)))
+                   ELSE Walked(v)
 Serial(e) == <<IF e = fail THEN "err" ELSE "ok", Walked(Inp0[e])>>
 
 Init == /\ fail \in 0..N
@@ -78,7 +112,7 @@ Next1(e) == (e % N) + 1
 Walk(w) ==
   /\ busy[w] # 0
   /\ LET e == busy[w]
-         out == <<IF e = fail THEN "err" ELSE "ok", Walked(inp[e])>>
+         out == <<IF e = fail THEN "err" ELSE "ok", WalkedBy(inp[e], IF round = 1 THEN 1 ELSE W)>>
          tgt == IF Variant = "shifted" THEN Next1(e) ELSE e
      IN /\ res' = IF Variant = "abortall" /\ e = fail THEN [x \in Elems |-> IF x = e THEN out ELSE None]
                   ELSE [res EXCEPT ![tgt] = out]
@@ -96,8 +130,9 @@ Commit == /\ round <= Rounds /\ RoundOver
           /\ result' = IF result = None THEN Out ELSE result
           /\ clash' = (clash \/ (result # None /\ result # Out))
           /\ round' = round + 1
-          \* the next execution starts from the same batch
-          /\ inp' = Inp0 /\ res' = [e \in Elems |-> None] /\ pool' = Elems /\ full' = FALSE /\ reported' = 0
+          \* the next execution starts from the same batch, constructed afresh from equal parts
+          /\ \E o \in (IF Variant = "maporder" THEN MapOrders ELSE {VecOrder}) : inp' = Built(o)
+          /\ res' = [e \in Elems |-> None] /\ pool' = Elems /\ full' = FALSE /\ reported' = 0
           /\ UNCHANGED <<fail, busy>>
 
 Next == \/ \E w \in Workers, e \in Elems : Take(w, e)
